@@ -325,8 +325,9 @@ impl HuffmanTree {
             let left = heap.pop().unwrap().0;
             let right = heap.pop().unwrap().0;
 
+            // Weights only order the heap; caller-supplied counts may sum past u32::MAX
             let merged = HuffmanNode::Internal {
-                frequency: left.frequency() + right.frequency(),
+                frequency: left.frequency().saturating_add(right.frequency()),
                 left: Box::new(left),
                 right: Box::new(right),
             };
